@@ -181,12 +181,24 @@ def _unwrap(o):
     return o
 
 
+_DOCS: list = []
+
+
 def _state(db):
     log = dumps.logical_dump(db.file)
     log.pop('__counts__', None)
     default = observe.observe_selection(None, expand=None)
     default.pop('warnings', None)
     default.pop('ilis', None)     # unfiltered listing of the shared ILI inventory
+    if '__raises__' not in default:
+        # look-ups by form, id and ILI and translations (anything remembered from before a
+        # removal or an add would show here)
+        import wn
+        from .c04 import extra_queries
+        w = wn.Wordnet()
+        q = extra_queries(w, _DOCS, sorted(observe.lexspec(lx) for lx in w.lexicons()))
+        default['queries'] = {k: v for k, v in q.items()
+                              if not k.startswith('ili(') and not k.startswith('ilis(')}
     return {'logical': {t: {'__multiset__': rows} for t, rows in log.items()},
             'api': _mask(observe.observe_all_lexicons(deep=True, expand='')),
             'api_default': _mask(default)}
@@ -196,6 +208,7 @@ def oracle(case):
     import wn
     u = case['universe']
     docs = u['lexicons']
+    _DOCS[:] = docs
     work = env.new_dir('c05')
     paths = []
     for i, idxs in enumerate(case['files']):
